@@ -17,7 +17,8 @@ BOUNDS = {
              "margins at segment ends; design conditions: pentagon of fixed abscissa pattern, symbolic position and "
              "symbolic ordinate of every vertex (+-0.05), scales 1 and 1e-4, steps as explicit list (inside and "
              "outside the range), int and None, both swap_axis values; the same for a flat-topped quadrilateral and a "
-             "non-convex notched hexagon that probe lines cross four times. All terms are linear: every query is decided.",
+             "non-convex notched hexagon that probe lines cross four times, and for a pentagon with a short closing "
+             "edge on top lying up to 3e5 contour sizes from the origin in any quadrant. All terms are linear: every query is decided.",
     "thorough": "10 shape pairs with up to 3 segments, 9 scale decades, second polygon",
 }
 OUTSIDE = [
@@ -149,6 +150,11 @@ POLYGONS = {
     # banana-shaped Hs-Tz contours and on unions of density regions; notch_y is the same shape for swap_axis=True
     "notch_x": [[1.0, 2.5], [2.0, 0.5], [5.0, 1.5], [3.0, 2.5], [5.0, 3.5], [2.0, 4.5]],
     "notch_y": [[2.5, 1.0], [0.5, 2.0], [1.5, 5.0], [2.5, 3.0], [3.5, 5.0], [4.5, 2.0]],
+    # the closing edge (last vertex -> first vertex) is the top edge and SHORT: on a contour far from the origin
+    # (pressure in Pa, temperature in K) its two ends are "close" relative to the size of the coordinates although
+    # they are a whole edge apart relative to the contour; short_top_y is the same shape for swap_axis=True
+    "short_top_x": [[2.0, 4.0], [1.0, 2.5], [2.8, 0.5], [4.0, 2.5], [3.0, 4.0]],
+    "short_top_y": [[4.0, 2.0], [2.5, 1.0], [0.5, 2.8], [2.5, 4.0], [4.0, 3.0]],
 }
 
 
@@ -166,7 +172,11 @@ def _poly(h, name):
     # position of the polygon: anywhere, including entirely at negative abscissae and / or negative ordinates
     # (temperatures, a normal variable with negative mean)
     lo_off = -12.0 if h.cfg.get("anywhere") else -1.0
-    off = [h.real("off0", lo_off, 1.0), h.real("off1", lo_off, 1.0)]
+    hi_off = 1.0
+    if h.cfg.get("far"):
+        # anywhere up to 3e5 contour sizes away from the origin, in every quadrant
+        lo_off, hi_off = -3e5, 3e5
+    off = [h.real("off0", lo_off, hi_off), h.real("off1", lo_off, hi_off)]
     rows = []
     for k in range(len(base)):
         r = [s * (float(base[k, 0]) + off[0]), s * (float(base[k, 1]) + off[1])]
@@ -299,6 +309,12 @@ def obligations(tier):
                 continue
             yield ("intersection", h_intersection, {"a": a, "b": b, "scale": sc}, {"max_paths": 20000})
     yield ("intersection", h_intersection, {"a": "vee", "b": "seg_anti", "scale": 1.0, "lists": True}, {})
+    for swap in (False, True):
+        poly = "short_top_y" if swap else "short_top_x"
+        yield ("design_list", h_design_list, {"polygon": poly, "swap": swap, "probes": [2.5, 1.5, 3.5, 6.0], "scale": 1.0,
+                                              "far": True}, {"max_paths": 20000})
+        yield ("design_any_abscissa", h_design_any_abscissa, {"polygon": poly, "swap": swap, "scale": 1.0, "far": True},
+               {"max_paths": 20000})
     for poly0 in (("pentagon", "flat_top", "notch") if tier == "quick" else ("pentagon", "quad", "flat_top", "notch")):
         for swap in (False, True):
             poly = poly0 if poly0 != "notch" else ("notch_y" if swap else "notch_x")
